@@ -94,8 +94,18 @@ CheckDis(ri, rec) ==
 
 \* records are consumed in batches of B per step (TLC's per-state overhead dominates otherwise)
 B == 64
+\* kind "ign": v = a code word sent on a line of its own between two channel-1 captions, same = 1 iff the reader's
+\* document equals the one read with null padding in its place.  A code that CTA-608 gives to channel 2 or to neither
+\* channel (field-2 control codes) is not channel-1 data: it must leave no trace.
+CheckIgn(j, rec) ==
+  LET b1 == rec.v \div 256  b2 == rec.v % 256 IN
+  IF Class(b1, b2) \in {"PAC", "MIDROW", "SPECIAL", "EXTENDED", "CONTROL", "ATTR"} /\ Channel(b1, b2) # 1
+  THEN Chk(rec.same = 1, j, rec.v, "only_channel_1_is_decoded")
+  ELSE TRUE
+
 CheckRec(j) == LET rec == Recs[j] IN
                IF rec.kind = "w" THEN \A lo \in 0..255 : CheckWord(j, rec, lo)
+               ELSE IF rec.kind = "ign" THEN CheckIgn(j, rec)
                ELSE CheckDis(j, rec)
 Min2(a, b) == IF a < b THEN a ELSE b
 TInit == i = 1 /\ w = 0
